@@ -310,6 +310,25 @@ CLAIMED = {
         "builder and simulator (Direct mode for the exact part, LIFRate with fixed seeds for the selection part); harness.",
         "DESIGN.md section 5, C15",
     ),
+    "C04": (
+        "Coq/MathComp proof (bigop algebra over the list of wires, any number of actions and effects) about a hand-written "
+        "executable model of ActionSelection._build and the thalamus routing helpers with ideal gates / channels; exact "
+        "multiset comparison of the wiring of built Nengo graphs with the model in Coq; seeded rate-neuron simulations of "
+        "whole blocks compared with the ideal model per winner phase",
+        "Theorems for every ordered ring, any rule set (no bound on actions, effects, targets) and any gate threshold in "
+        "[0,1): under a one-hot selection every target receives exactly the sum of the winner's effects (fixed and "
+        "dynamic, pointer and scalar) and nothing from any other action, pointwise in time, so routed effects follow the "
+        "winner; utilities are connected index by index. PARTIAL: that the basal ganglia / thalamus make the selection "
+        "one-hot for a clear margin is a property of neural dynamics that is not modelled; it is observed in every "
+        "simulated phase (winner > 0.75, losers < 0.2) and a failure is reported as a violation; the values of dynamic "
+        "effect expressions are those of C01. Tie (a) exact: which thalamus ensemble drives each fixed connection / gate, "
+        "transforms, bias, the gate inhibiting every neuron of its own channel with -route_inhibit, channel kind, "
+        "channel -> target, source -> channel, utility -> BG input index; (b) LIFRate blocks with 2-4 actions, 2-3 winner "
+        "phases, three seeds.",
+        "Trusted: Coq kernel + vm_compute; Model/Routing.v; Nengo builder / simulator (LIFRate, fixed seeds); harness graph "
+        "extraction.",
+        "DESIGN.md section 5, C04",
+    ),
     "C05": (
         "Coq/MathComp proofs (index arithmetic of the product-unit layout; the per-block MatrixMult composition equals the "
         "kron/reshape binding core; helper matrices are the transposition) about a hand-written executable model of the "
